@@ -475,11 +475,12 @@ func Execute(req *sb.Request) *sb.Response {
 
 func probeTypes(mods map[string]ast.AnalyzedProgram) []sb.ProbeType {
 	var out []sb.ProbeType
+	fn := ""
 	var walkBlock func(b ast.AnalyzedBlock)
 	walkBlock = func(b ast.AnalyzedBlock) {
 		for _, s := range b.Statements {
-			if l, ok := s.(ast.AnalyzedLetStatement); ok && strings.HasPrefix(l.Ident.Ident(), "probe_") {
-				out = append(out, sb.ProbeType{Name: l.Ident.Ident(), Type: l.VarType.String()})
+			if l, ok := s.(ast.AnalyzedLetStatement); ok {
+				out = append(out, sb.ProbeType{Name: fn + "/" + l.Ident.Ident(), Type: CanonAstType(l.VarType)})
 			}
 		}
 	}
@@ -490,6 +491,7 @@ func probeTypes(mods map[string]ast.AnalyzedProgram) []sb.ProbeType {
 	sort.Strings(names)
 	for _, n := range names {
 		for _, f := range mods[n].Functions {
+			fn = f.Ident.Ident()
 			walkBlock(f.Body)
 		}
 	}
